@@ -32,6 +32,27 @@ CHECKS = {
     "C07": ("model-based histories (put/get/cancel grouped per instant, clock advances) on Container/Store/PriorityStore/"
             "FilterStore vs a model updated only from observed grants; exact Fraction arithmetic", EXPL,
             "Grants are observed as Put/Get events being triggered (schedule hook of an Environment subclass).", "4/C07"),
+    "C09": ("generated workloads through a tapped Port/PortMonitor/REDPort vs a reference FIFO server in Fractions driven by the "
+            "observed arrival/departure interleaving; set-valued same-instant decisions; scripted RED draws", EXPL,
+            "A tail drop is what the port counts in packets_dropped (cross-checked against what leaves); RED draws are a "
+            "constant script substituted for onl.netdev.red_port.random.", "4/C09"),
+    "C10": ("generated arrival sequences and scripted delay/loss draws through a tapped Wire/Cable vs max(a+d, previous delivery); "
+            "binomial band for loss frequency; mapping-free bounds under loss with varying delays", EXPL,
+            "onl.netdev.wire.random is replaced by a scripted/seeded generator; frequency clause is statistical (1e-9 band).", "4/C10"),
+    "C11": ("generated workloads through TokenBucket/TwoRateTokenBucket vs a reference shaper in Fractions plus model-free "
+            "conformance inequalities; committed-level interval for colours", EXPL,
+            "What a yellow/red packet does to the committed bucket is unspecified: tracked as an interval.", "4/C11"),
+    "C12": ("generated workloads through each of six schedulers vs the rate-exact work-conserving service law, per-flow FIFO, "
+            "per-step counter agreement, Monitor samples", EXPL,
+            "Configured flows with positive weights only (others make the schedulers spin; outside the statement).", "4/C12"),
+    "C13": ("generated multi-level backlogs through SP; at every service start no certainly-waiting packet has higher priority", EXPL,
+            "Certainly waiting = arrival observed before the previous exit (same-instant arrivals after it are set-valued).", "4/C13"),
+    "C14": ("stamps recomputed in Fractions from the observed history (WFQ virtual time, VC auxVC) vs the observed service order; "
+            "static-backlog fairness bound", EXPL,
+            "A class is backlogged while it has packets waiting or in transmission.", "4/C14"),
+    "C15": ("reference round-robin visitor (RR/WRR/DRR) replayed on observed arrivals must reproduce the exact transmission "
+            "sequence; model-free DRR credit bounds and fairness windows", EXPL,
+            "Arrivals after t=0 carry unique 2^-16 offsets so visibility at each decision is unambiguous.", "4/C15"),
     "C19": ("generated scenarios (creator, sleeping actors calling stop/restart, scripted callback) vs a reference timer replayed "
             "over the harness log in execution order", EXPL,
             "Same-instant order of calls and expiries is taken from the harness log; two cases are left unjudged as unspecified "
